@@ -146,3 +146,31 @@ func verifSamePrimary(x, y value.Primary) bool {
 
 
 func verifEpoch() time.Time { return time.Unix(1328260695, 0).In(time.UTC) }
+
+// verifCancelCtx: a context that is cancelled (SIGINT / SIGTERM reach csvq as context cancellation)
+// at the k-th time the program looks at it; k is chosen by the engine.
+type verifCancelCtx struct {
+	ch    chan struct{}
+	looks int
+	at    int
+	fired bool
+}
+
+func (c *verifCancelCtx) look() {
+	c.looks++
+	if !c.fired && c.at > 0 && c.looks >= c.at {
+		c.fired = true
+		close(c.ch)
+	}
+}
+func (c *verifCancelCtx) Deadline() (deadline time.Time, ok bool) { return time.Time{}, true }
+func (c *verifCancelCtx) Done() <-chan struct{}                   { c.look(); return c.ch }
+func (c *verifCancelCtx) Err() error {
+	c.look()
+	if c.fired {
+		return context.Canceled
+	}
+	return nil
+}
+func (c *verifCancelCtx) Value(key interface{}) interface{} { return nil }
+
